@@ -110,7 +110,8 @@ package types
 //@   props C05
 //@   requires inv_Transaction(t) && t.timer != nil
 //@   let n0 = ntrace()
-//@   modifies trace
+//@   modifies nothing
+//@   emits TimerStop(t.timer)
 //@   ensures stops_timer: ntrace() == n0 + 1 && emitted(n0) == TimerStop(t.timer)
 //@   ensures is_rollback: result != nil && fresh(result) && result.isRollback && result.timer == nil &&
 //@            result.transactionManager == t.transactionManager
@@ -133,7 +134,8 @@ package types
 //@   props C06
 //@   requires t != nil
 //@   let n0 = ntrace()
-//@   modifies trace
+//@   modifies nothing
+//@   emits TimerStop(t.timer) if t.timer != nil
 //@   ensures no_timer: t.timer == nil ==> result != nil && ntrace() == n0
 //@   ensures stops_timer: t.timer != nil ==> result == nil && ntrace() == n0 + 1 && emitted(n0) == TimerStop(t.timer)
 
@@ -141,7 +143,8 @@ package types
 //@   props C06 C05
 //@   requires t != nil
 //@   let n0 = ntrace()
-//@   modifies trace, TransactionCancelTimer.done
+//@   modifies TransactionCancelTimer.done
+//@   emits TimerStart(t.timer) if t.timer != nil && t.timer.done == nil
 //@   ensures no_timer: t.timer == nil ==> result == nil && ntrace() == n0
 //@   ensures starts: t.timer != nil && old(t.timer.done) == nil ==> result == nil && ntrace() == n0 + 1 && emitted(n0) == TimerStart(t.timer)
 //@   ensures not_twice: t.timer != nil && old(t.timer.done) != nil ==> result != nil && ntrace() == n0
@@ -179,7 +182,9 @@ package types
 //@   props C06
 //@   requires inv_TM(t)
 //@   let n0 = ntrace()
-//@   modifies t.transaction, trace
+//@   let tr0 = t.transaction
+//@   modifies t.transaction
+//@   emits TimerStop(tr0.timer) if tr0 != nil && tr0.transactionId == id
 //@   ensures no_transaction: old(t.transaction) == nil ==> result != nil && ntrace() == n0
 //@   ensures wrong_id_no_effect: old(t.transaction) != nil && old(t.transaction).transactionId != id ==>
 //@            result != nil && t.transaction == old(t.transaction) && ntrace() == n0
@@ -206,5 +211,6 @@ package types
 //@   props C05 C06
 //@   requires t != nil && t.rollbacker != nil
 //@   let n0 = ntrace()
-//@   modifies t.transaction, trace
+//@   modifies t.transaction
+//@   emits Rollback(trans)
 //@   ensures one_rollback_slot_cleared: ntrace() == n0 + 1 && emitted(n0) == Rollback(trans) && t.transaction == nil
